@@ -232,3 +232,35 @@ func C20Incompatible() {
 	}
 	sym.Reach("incompatible-done")
 }
+
+// C20MapsOfContainers: maps whose elements are themselves containers (each entry must get its own
+// converted element: no state shared between entries).
+func C20MapsOfContainers() {
+	x, y := sym.I16("x"), sym.I16("y")
+	src := map[string][]int16{"a": {x}, "bb": {y}}
+	var dst map[string][]int64
+	err := ConvertFrom(&dst, src)
+	sym.Assert(err == nil, "map-of-slices/ok")
+	if err == nil {
+		sym.Assert(len(dst) == 2 && len(dst["a"]) == 1 && len(dst["bb"]) == 1, "map-of-slices/shape")
+		if len(dst["a"]) == 1 && len(dst["bb"]) == 1 {
+			sym.Assert(sym.And(dst["a"][0] == int64(x), dst["bb"][0] == int64(y)), "map-of-slices/elements")
+		}
+	}
+	p, q := sym.U8("p"), sym.U8("q")
+	src2 := map[uint8]map[string]uint8{1: {"k": p}, 2: {"l": q}}
+	var dst2 map[uint16]map[string]uint32
+	err = ConvertFrom(&dst2, src2)
+	sym.Assert(err == nil, "map-of-maps/ok")
+	if err == nil {
+		sym.Assert(len(dst2) == 2 && len(dst2[1]) == 1 && len(dst2[2]) == 1, "map-of-maps/shape")
+		sym.Assert(sym.And(dst2[1]["k"] == uint32(p), dst2[2]["l"] == uint32(q)), "map-of-maps/elements")
+	}
+	type inner struct{ A, B int8 }
+	type innerWide struct{ A, B int32 }
+	type partial struct{ A int8 }
+	// struct elements: a field missing in a later entry's source must not inherit an earlier entry's value
+	src3 := []interface{}{inner{A: sym.I8("ia"), B: sym.I8("ib")}, partial{A: sym.I8("pa")}}
+	_ = src3
+	sym.Reach("maps-of-containers-done")
+}
